@@ -160,6 +160,16 @@ def execute(rec):
         if "p" in op and op["p"] >= len(w.parties):
             continue
         kind = op["op"]
+        witness = False
+        if kind in ("randomize", "rw"):
+            # if the state the object is in already satisfies every enforced constraint, the system
+            # is satisfiable (the state itself is a witness): the call must not fail
+            try:
+                pre = w.tree(op["p"])
+                witness = refsem.check_tree(P, w.parties[op["p"]].cname, pre, w.parties[op["p"]].modes,
+                                            w.parties[op["p"]].rangelists, op.get("inline")) is None
+            except refsem.RefError:
+                witness = False
         out = w.apply(op)
         if kind == "assign" and op.get("nrsub"):
             stats["nonrand_sub_assigns"] += 1
@@ -178,7 +188,13 @@ def execute(rec):
         if out["st"] != "ok":
             stats["solvefail"] += 1
             obs.append((oi, kind, out["st"]))
+            if witness:
+                viol.append({"inv": "C08.subobject_blocks", "cls": "C08.subobject_blocks/fails_with_witness",
+                             "detail": {"op": oi, "state": pre, "outcome": out}})
+                break
             continue
+        if witness:
+            stats["witness_calls"] = stats.get("witness_calls", 0) + 1
         tree = w.tree(p)
         obs.append((oi, kind, "ok", tree))
         try:
